@@ -49,7 +49,8 @@ Fixpoint status (b : body) : Z :=
   | BErr | BPanicErr | BPanicVal => 1                 (* plain error, non-error panic *)
   | BFatal c | BPanicFatal c => c                     (* the code of mg.Fatal / mg.Fatalf *)
   | BSh (CExit k) => k                                (* the exit code of the failed command *)
-  | BSh _ => 1                                        (* the command could not be run: a plain error *)
+  | BSh _ => 1                                        (* the command could not be run / was killed: a plain error *)
+  | BShCopyErr => 1                                   (* it ran but c.Run() failed otherwise: a plain error *)
   | BOsExit c => c
   | BDeps false ds => combine (map status ds)         (* the combined status of the failed dependencies *)
   | BDeps true ds => first_nonzero (map status ds)    (* serial: the first failure stops the list *)
@@ -87,13 +88,13 @@ Proof. intros. simpl. rewrite all_bodies_exit_free. apply all_bodies_Forall. Qed
 (* induction over bodies with the members of a dependency set *)
 Lemma body_ind' (P : body -> Prop) :
   P BOk -> P BErr -> (forall c, P (BFatal c)) -> P BPanicErr -> (forall c, P (BPanicFatal c)) -> P BPanicVal ->
-  (forall c, P (BSh c)) -> (forall c, P (BOsExit c)) ->
+  (forall c, P (BSh c)) -> P BShCopyErr -> (forall c, P (BOsExit c)) ->
   (forall ser ds, Forall P ds -> P (BDeps ser ds)) ->
   forall b, P b.
 Proof.
-  intros H1 H2 H3 H4 H5 H6 H7 H8 H9.
-  fix IH 1. intros [ | | c | | c | | c | c | ser ds];
-    [exact H1|exact H2|apply H3|exact H4|apply H5|exact H6|apply H7|apply H8|].
+  intros H1 H2 H3 H4 H5 H6 H7 H7' H8 H9.
+  fix IH 1. intros [ | | c | | c | | c | | c | ser ds];
+    [exact H1|exact H2|apply H3|exact H4|apply H5|exact H6|apply H7|exact H7'|apply H8|].
   apply H9. induction ds as [|d ds IHds]; constructor; [apply IH | exact IHds].
 Qed.
 
@@ -252,6 +253,7 @@ Proof.
     + left; auto.
     + right; simpl; repeat split; auto; lia.
     + right; destruct Hc; subst; simpl; repeat split; auto; lia.
+  - right; repeat split; auto; lia.
   - repeat split; auto; lia.
   - apply all_bodies_wf in Hwf. apply all_bodies_Forall in Hwf.
     assert (HM : Forall (fun d => (match run_body d with Exited _ => False | _ => True end) /\
@@ -905,7 +907,7 @@ Proof.
 Qed.
 
 Definition plain_failure (b : body) : Prop :=
-  b = BErr \/ b = BPanicErr \/ b = BPanicVal \/ b = BSh CNotStarted \/ b = BSh CSignaled.
+  b = BErr \/ b = BPanicErr \/ b = BPanicVal \/ b = BSh CNotStarted \/ b = BSh CSignaled \/ b = BShCopyErr.
 Definition word_misuse (m : mention) : Prop := m = MUnknown \/ m = MMissing \/ m = MBadArg.
 
 Lemma classes :
@@ -931,7 +933,7 @@ Proof.
   split; [|split; [|split; [|split; [|split]]]].
   - intros fixed cp pre b post HL Hwf Hok Hp.
     assert (W : wf_body b /\ ~ completes b /\ status b = 1).
-    { destruct Hp as [H|[H|[H|[H|H]]]]; subst; simpl; tauto. }
+    { destruct Hp as [H|[H|[H|[H|[H|H]]]]]; subst; simpl; tauto. }
     destruct W as [W1 [W2 W3]].
     destruct (first_failure_decides fixed cp pre (MRun b) post HL Hwf Hok W1 W2) as [E _]. simpl in E. congruence.
   - intros fixed cp pre m post HL Hwf Hok Hm.
@@ -1018,4 +1020,13 @@ Proof.
   destruct (front_misuse_two fixed sc M) as [E1 E2]. split; [exact E1|]. split; [exact E2|].
   destruct (Parse_spec (sc_args sc)) as [_ [P2 _]]. apply P2 in M.
   unfold mage_run, ParseAndRun. destruct (Parse (sc_args sc)) as [cmd e]. simpl in M. subst e. destruct cmd; reflexivity.
+Qed.
+
+(* a failed sh command that has no exit code of its own - killed by a signal, could not be started, or ran (exit 0)
+   while c.Run() failed with an error that is not an *exec.ExitError - is a plain error: sh hands on fmt.Errorf, the
+   status is 1, never the child's 0 or the wait status' -1 *)
+Lemma sh_without_exit_code : forall b, b = BSh CSignaled \/ b = BSh CNotStarted \/ b = BShCopyErr ->
+  run_body b = Returned VPlain /\ status b = 1 /\ wf_body b /\ ~ completes b /\ plain_failure b.
+Proof.
+  intros b [H|[H|H]]; subst; simpl; unfold plain_failure; repeat split; auto; tauto.
 Qed.
